@@ -218,7 +218,38 @@ impl HB {
     fn union(&mut self, i: u64, j: u64) { self.ops.push(lst(vec![sym("union"), num(i), num(j)])); }
 }
 
+/// "all searchers run before any applier": an earlier rule of the same call makes a class lose a slot that the planted
+/// instance of a later rule repeats; the later rule must still fire (its matches were collected on the e-graph before)
+fn gen_interference(rng: &mut Rng) -> String {
+    let pool: Vec<u64> = vec![1, 2, 3];
+    let t = match rng.below(3) { 0 => rt(5, vec![slot_arg(*rng.pick(&pool))], vec![]), 1 => rt(0, vec![slot_arg(1), slot_arg(2)], vec![]), _ => gen_term(rng, 1, &pool) };
+    let (s_l, s_r) = ("(h ?a ?a)", "(c)");
+    let (p_l, p_r) = *rng.pick(&[("(h (u ?a) (h ?a ?a))", "(u ?a)"), ("(h (h ?a ?a) (u ?a))", "(u (u ?a))"), ("(u (h ?b (h ?a ?a)))", "(h ?b (u ?a))")]);
+    let b = gen_term(rng, 1, &pool);
+    let inst1 = |pat: &str| -> Sx {
+        // the three planted shapes, instantiated by hand
+        match pat {
+            "(h (u ?a) (h ?a ?a))" => hh(un(t.clone()), hh(t.clone(), t.clone())),
+            "(u ?a)" => un(t.clone()),
+            "(h (h ?a ?a) (u ?a))" => hh(hh(t.clone(), t.clone()), un(t.clone())),
+            "(u (u ?a))" => un(un(t.clone())),
+            "(u (h ?b (h ?a ?a)))" => un(hh(b.clone(), hh(t.clone(), t.clone()))),
+            _ => hh(b.clone(), un(t.clone())),
+        }
+    };
+    let (t_l, t_r) = (inst1(p_l), inst1(p_r));
+    let mut hb = HB { terms: vec![], ops: vec![], nadd: 0, handle_term: vec![] };
+    if rng.chance(1, 2) { hb.add(un(t_l.clone())); }
+    hb.add(t_l.clone());
+    let rules = vec![sym("rules"), rule_sx(900, &(s_l, s_r, None, 0)), rule_sx(901, &(p_l, p_r, None, 0))];
+    let mut tt = vec![sym("terms")]; tt.extend(hb.terms);
+    let mut o = vec![sym("ops")]; o.extend(hb.ops);
+    lst(vec![sym("eg4"), flags(), lst(tt), lst(o), sym("plant+interference"), lst(rules), lst(vec![sym("iters"), num(1)]),
+             lst(vec![sym("plant"), t_l, t_r, num(1)])]).to_string()
+}
+
 pub fn gen_case(rng: &mut Rng, outside: bool) -> String {
+    if !outside && rng.chance(1, 10) { return gen_interference(rng); }
     let pool: &[(&str, &str)] = if outside { POOL4_OUT } else { POOL4 };
     let ri = rng.below(pool.len() as u64) as usize;
     let (lhs_s, rhs_s) = pool[ri];
